@@ -104,12 +104,17 @@ theorem func_name_is_versioned_name (cls : ClassDef) (e : Nat) (k : Key) :
   ⟨rfl, fun _ _ _ _ h => mkName_inj h⟩
 
 /-- **At all times the name table is the one of the enabled version**: true of a fresh node, preserved by every
-tick / commit move / append / subscription, and re-established by loading a dump. -/
+tick / commit move / append / subscription and by loading a dump (installed or ignored). -/
 theorem name_table_follows_enabled_version :
     (∀ cls, (initNode cls).tableVer = (initNode cls).enabled) ∧
     (∀ (n : Node) (ops : List Op), n.tableVer = n.enabled → (run n ops).1.tableVer = (run n ops).1.enabled) ∧
-    (∀ (n : Node) (d : Dump) (clear : Bool), (loadDump n d clear).tableVer = (loadDump n d clear).enabled) :=
-  ⟨fun _ => rfl, fun n ops h => (run_table ops n h).1, fun _ _ _ => rfl⟩
+    (∀ (n : Node) (d : Dump) (clear : Bool), n.tableVer = n.enabled →
+      (loadDump n d clear).tableVer = (loadDump n d clear).enabled) := by
+  refine ⟨fun _ => rfl, fun n ops h => (run_table ops n h).1, fun n d clear h => ?_⟩
+  unfold loadDump
+  split
+  · exact h
+  · rfl
 
 /-- **A call uses the newest implementation whose version is not above the enabled version** - on every node whose
 name table belongs to its enabled version (all of them, by `name_table_follows_enabled_version`). -/
@@ -247,10 +252,12 @@ theorem enabled_stays_supported (n n' : Node) (evs : List Ev) (ops : List Op) (f
 /-! ## Snapshot and restart -/
 
 /-- **Survives snapshot and restart.** `m` (any code, any state) takes a dump; `r` is any node - a restarted
-instance, a node catching up, same or other code - that loads it. Then `r` has the enabled version `m` had at the
-snapshot position and its name table is the one of that version for `r`'s own code: every call on `r` resolves to
-the newest implementation in `r`'s code that is not above that version. `lastApplied` is the snapshot position. -/
-theorem survives_snapshot_and_restart (m r : Node) (d : Dump) (clear : Bool) (h : takeDump m = some d) :
+instance, a node catching up, same or other code - that loads it and installs it (`skipsInstall = false`; the other
+branch is `snapshot_already_held_is_ignored`). Then `r` has the enabled version `m` had at the snapshot position and
+its name table is the one of that version for `r`'s own code: every call on `r` resolves to the newest implementation
+in `r`'s code that is not above that version. `lastApplied` is the snapshot position. -/
+theorem survives_snapshot_and_restart (m r : Node) (d : Dump) (clear : Bool) (h : takeDump m = some d)
+    (hinst : skipsInstall r d clear = false) :
     let r' := loadDump r d clear
     r'.enabled = m.enabled ∧ r'.tableVer = m.enabled ∧ r'.cls = r.cls ∧ r'.lastApplied = d.last.idx ∧
     (∀ k, callId r'.cls r'.tableVer k = callId r.cls m.enabled k) ∧
@@ -261,12 +268,44 @@ theorem survives_snapshot_and_restart (m r : Node) (d : Dump) (clear : Bool) (h 
     split at h
     · simp only [Option.some.injEq] at h; rw [← h]
     · cases h
-  have he : (loadDump r d clear).enabled = m.enabled := by simp [loadDump, hd]
-  have ht : (loadDump r d clear).tableVer = m.enabled := by simp [loadDump, hd]
-  have hc : (loadDump r d clear).cls = r.cls := rfl
-  refine ⟨he, ht, hc, rfl, fun k => by rw [ht, hc], fun k v => ?_⟩
+  have he : (loadDump r d clear).enabled = m.enabled := by simp [loadDump, hd, hinst]
+  have ht : (loadDump r d clear).tableVer = m.enabled := by simp [loadDump, hd, hinst]
+  have hc : (loadDump r d clear).cls = r.cls := by simp [loadDump, hinst]
+  have hl : (loadDump r d clear).lastApplied = d.last.idx := by simp [loadDump, hinst]
+  refine ⟨he, ht, hc, hl, fun k => by rw [ht, hc], fun k v => ?_⟩
   rw [ht, hc]
   exact resolveVer_some_iff r.cls m.enabled k v
+
+/-- The other branch of `__loadDumpFile`: a received snapshot (`clearJournal`) whose last entry the node has already
+applied, or already holds with the same term, is ignored - log, position, enabled version and name table stay as
+they are (the node got / will get the switch through its own log: `enabled_version_is_last_version_applied`). A dump
+read from the node's own file at start-up (`clearJournal = false`) is never ignored. -/
+theorem snapshot_already_held_is_ignored (r : Node) (d : Dump) (clear : Bool) :
+    (skipsInstall r d clear = true → loadDump r d clear = r ∧ clear = true ∧
+      (d.last.idx ≤ r.lastApplied ∨
+        ∃ e ∈ r.log, e.term = d.last.term ∧ (getEntries r.log d.last.idx 1).head? = some e)) ∧
+    skipsInstall r d false = false := by
+  constructor
+  · intro h
+    refine ⟨by simp [loadDump, h], ?_, ?_⟩
+    · unfold skipsInstall at h
+      cases clear <;> simp_all
+    · unfold skipsInstall at h
+      simp only [Bool.and_eq_true, Bool.or_eq_true, decide_eq_true_eq] at h
+      rcases h.2 with h1 | h2
+      · exact .inl h1
+      · right
+        split at h2
+        · rename_i e rest hg
+          exact ⟨e, mem_of_mem_getEntries (hg ▸ List.mem_cons_self), by simpa using h2, by rw [hg]; rfl⟩
+        · cases h2
+  · simp [skipsInstall]
+
+example : ∃ (r : Node) (d : Dump), skipsInstall r d true = false ∧ skipsInstall r d false = false ∧ r.log ≠ [] :=
+  ⟨initNode [], ⟨some 1, ⟨.noop, 5, 1⟩, ⟨.version 1, 6, 1⟩⟩, by decide, by decide, by decide⟩
+
+example : ∃ (r : Node) (d : Dump), skipsInstall r d true = true :=
+  ⟨initNode [], ⟨some 0, ⟨.noop, 0, 0⟩, ⟨.noop, 1, 0⟩⟩, by decide⟩
 
 /-- Non-vacuity: a node that applied `f, VERSION 1` can take a dump. -/
 example : ∃ (m : Node) (d : Dump), takeDump m = some d ∧ m.enabled = 1 ∧ d.last.idx = m.lastApplied := by
@@ -296,18 +335,19 @@ theorem dump_is_at_last_applied (m : Node) (d : Dump) (f : Nat) (hlog : Consec f
 /-- After loading a dump made under a version the receiver's code lacks, the receiver applies nothing (it "stops
 applying rather than misapplying" also when the switch reached it inside a snapshot). -/
 theorem snapshot_of_unsupported_version_blocks (m r : Node) (d : Dump) (clear : Bool) (ops : List Op)
-    (h : takeDump m = some d) (hun : selfCodeVersion r.cls < m.enabled) :
+    (h : takeDump m = some d) (hinst : skipsInstall r d clear = false) (hun : selfCodeVersion r.cls < m.enabled) :
     ranIdxs (run (loadDump r d clear) ops).2 = [] ∧
     (run (loadDump r d clear) ops).1.lastApplied = d.last.idx := by
-  obtain ⟨he, _, hc, hl, _⟩ := survives_snapshot_and_restart m r d clear h
+  obtain ⟨he, _, hc, hl, _⟩ := survives_snapshot_and_restart m r d clear h hinst
   have hb : (loadDump r d clear).enabled > selfCodeVersion (loadDump r d clear).cls := by rw [he, hc]; exact hun
   obtain ⟨l, rr, _⟩ := unsupported_enabled_version_blocks (loadDump r d clear) ops hb
   exact ⟨rr, by rw [l, hl]⟩
 
 /-- A dump in the old user-serializer format (no version stored, `enabled = none`) leaves the receiver's enabled
 version as it is; the name table is rebuilt for it. Stated so that the legacy branch of `loadDump` is covered. -/
-theorem legacy_dump_keeps_version (r : Node) (p l : Entry) (clear : Bool) :
-    (loadDump r ⟨none, p, l⟩ clear).enabled = r.enabled ∧ (loadDump r ⟨none, p, l⟩ clear).tableVer = r.enabled :=
-  ⟨rfl, rfl⟩
+theorem legacy_dump_keeps_version (r : Node) (p l : Entry) (clear : Bool)
+    (hinst : skipsInstall r ⟨none, p, l⟩ clear = false) :
+    (loadDump r ⟨none, p, l⟩ clear).enabled = r.enabled ∧ (loadDump r ⟨none, p, l⟩ clear).tableVer = r.enabled := by
+  simp [loadDump, hinst]
 
 end PSO.C17
